@@ -239,7 +239,7 @@ static void one_pass(const plan_t *p, int pass)
     int nres = 0;
     memset(vars, 0, sizeof(vars));
     store_uncertain = 0;
-    tmpdir_odd = plan_get(p, "tmpdir", 0) == 2 || plan_get(p, "tmpdir", 0) == 3 || plan_get(p, "fdopen.fail", 0) || plan_get(p, "fchmod.fail", 0);
+    tmpdir_odd = plan_get(p, "tmpdir", 0) == 2 || plan_get(p, "tmpdir", 0) == 3 || plan_get(p, "fdopen.fail", 0) || plan_get(p, "fchmod.fail", 0) || plan_get(p, "exec.readfail", 0);
     conf_env_setup(p);
     simenv_set_rand_seed(p->seed | 1);              /* both passes see the same rand() sequence */
     { int f0 = (int)plan_get(p, "alloc.fill", FILL_A5); sa_set_fill(pass ? (f0 == FILL_FF ? FILL_A5 : FILL_FF) : f0); }      /* the second pass always runs on a different fill */
@@ -482,6 +482,8 @@ static void gen_c10(plan_t *p, rng_t *r)
         plan_knob(p, "dir.namelen", nls[rng_below(r, 6)]);
         bigdir = 1;
     } else bigdir = 0;
+    if (rng_chance(r, 1, 10)) plan_knob(p, "exec.readfail", rng_range(r, 1, 2));      /* a command's output cannot be read back: the read fails at once, or half way (value don't-care; safety and garbage-independence stay) */
+    if (!bigdir && rng_chance(r, 1, 4)) plan_knob(p, "dir.ghost", 1);      /* names in the directory that stat() cannot follow (gone since readdir(), links to nothing) */
     for (int i = 0; i < nops; i++) {
         int pieces = rng_range(r, 1, 8);
         gvn = 0; gv[0] = 0;
